@@ -71,7 +71,9 @@ CLAIMED = {
             "The oracle re-evaluates the statement on the real code, incl. after-unlink emptiness and non-interference.",
             "The unlink theorems assume every attached link is a proper two-ended link (exactly two ends).", "DESIGN.md 3/C09"),
     "C05": ("Lean 4 proof: invariant CacheOK (every memo equals the recomputed answer, flag on or off) over all histories mixing mutators, queries and flag toggles; audit-mode correspondence + fresh-interpreter pickling",
-            "Theorems C05_all_histories, C05_step_preserves, C05_query_preserves (also under a raising filter), C05_transparent, C05_answers_transparent. Correspondence in audit mode: after every "
+            "Theorems C05_all_histories, C05_step_preserves, C05_query_preserves (also under a raising filter), C05_transparent, C05_answers_transparent; for the traversal and search ENTRY POINTS, modelled "
+            "with every neighbors() call going through the memo in the order the code makes them (EG.TravState): C05_traversal_transparent, C05_search_transparent, C05_traversal_flag_irrelevant, "
+            "C05_search_flag_irrelevant, C05_all_histories_with_traversals, C05_history_traversal_answers (EG/Props/C05Trav.lean). Correspondence in audit mode: after every "
             "mutating op every vertex is queried under several keys with caching on; oracle: answer with caching on = answer recomputed with the flag off (also for traversals/searches); "
             "graphs with warm caches are pickled and re-queried in a fresh interpreter.",
             "Process boundaries are exercised, not modelled. Filters are assumed pure.", "DESIGN.md 3/C05"),
@@ -101,10 +103,12 @@ CLAIMED = {
             "The theorem is thin by design (DESIGN.md 7): it states that the model compared with the code has no aliasing.", "DESIGN.md 3/C12"),
     "C13": ("Lean 4 proof: frame property of neighbors()/find_links for every fault index (world unchanged but the memo, memo stays correct, repeat gives the normal answer); snapshot oracle + exhaustive per-call fault sweep on the real code",
             "Theorems C13_neighbors_frame (for EVERY invocation index at which the filter raises: graph unchanged, no incorrect memo left, other memos untouched), C13_repeat_ok, C13_step_readonly, "
-            "C13_queries_invisible. Traversals, searches and renderers are functions from the world in the model because the code contains no store; for them the property is established on the real code: "
+            "C13_queries_invisible; for traversals and searches (modelled with their memo traffic, EG.TravState): C13_traversal_readonly, C13_search_readonly, C13_queries_invisible_x "
+            "(any sequence of neighbors / find_links / traversal / search calls on a reachable world leaves the graph part of the world as it was and every memo correct). Renderers and pickling "
+            "are functions from the world in the model because the code contains no store; for them, and for faults inside traversal callbacks, the property is established on the real code: "
             "vars() of every object (attribute-name sets, values, container contents) is snapshotted around every read-only call of every script, and a fault is swept over every invocation index of every "
             "callback (filterfunc, ff_via, ff_result, rfunc, sort, rvfunc, refunc, user_render_func), each followed by an unfaulted repeat that must give the baseline answer.",
-            "PARTIAL for entry points without stores: frame by construction of the model + exhaustive fault sweep per call, not a theorem about the Python.", "DESIGN.md 3/C13"),
+            "PARTIAL for renderers / pickling (entry points without stores): frame by construction of the model + exhaustive fault sweep per call, not a theorem about the Python.", "DESIGN.md 3/C13"),
     "C14": ("Lean 4 proof: structure of the PlantUML source (one declaration per member, relation lines = shown links one-for-one, orientation, nearest configured class); parse-back correspondence",
             "Theorems C14_decl_once, C14_shown_links, C14_relations_exact, C14_internal_link_shown (with C01's symmetry), C14_orientation, C14_resolve_nearest, C14_empty over the structure model; "
             "the real text is parsed back into declaration and relation records (titles tokenised) and compared with the model for 4 option tables incl. a configured subclass and an attribute-based title; "
